@@ -98,6 +98,15 @@ spec fn sym_range(s: Symbol) -> ast::Range {
 }
 spec fn hit(s: Symbol, p: (usize, usize)) -> bool { contains_lc(sym_range(s), p) }
 
+// find_symbol: the first symbol of the traversal sequence the predicate accepts (all earlier ones rejected), or nothing
+spec fn find_ok<'a, F: FnMut(&Symbol<'a>) -> bool>(syms: Seq<Symbol<'a>>, f: F, r: Option<Symbol<'a>>) -> bool {
+    match r {
+        Some(s) => exists |i: int| 0 <= i < syms.len() && #[trigger] syms[i] == s && f.ensures((&syms[i],), true)
+                    && forall |j: int| 0 <= j < i ==> f.ensures((&#[trigger] syms[j],), false),
+        None => forall |j: int| 0 <= j < syms.len() ==> f.ensures((&#[trigger] syms[j],), false),
+    }
+}
+
 // first symbol in traversal order whose name range contains the position, or nothing
 spec fn lookup_ok<'a>(syms: Seq<Symbol<'a>>, p: (usize, usize), r: Option<Symbol<'a>>) -> bool {
     match r {
@@ -111,4 +120,22 @@ proof fn lemma_single_line_name(r: ast::Range, col: usize)
     requires r.start.line_col.0 == r.end.line_col.0, r.start.line_col.1 <= col <= r.end.line_col.1
     ensures contains_lc(r, (r.start.line_col.0, col))
 {
+}
+
+// filter_symbols: v is what scanning the traversal sequence keeps: exactly the symbols the predicate accepted, in visit order
+spec fn scan_ok<'a, F: FnMut(&Symbol<'a>) -> bool>(syms: Seq<Symbol<'a>>, n: int, v: Seq<Symbol<'a>>, f: F) -> bool
+    decreases n
+{
+    if n <= 0 { v.len() == 0 }
+    else {
+        (v.len() > 0 && v.last() == syms[n - 1] && f.ensures((&syms[n - 1],), true) && scan_ok(syms, n - 1, v.drop_last(), f))
+        || (f.ensures((&syms[n - 1],), false) && scan_ok(syms, n - 1, v, f))
+    }
+}
+
+// class V for walk_symbols' plain callback
+pub trait SymbolSink<'a> {
+    spec fn log(&self) -> Seq<Symbol<'a>>;
+    fn visit(&mut self, s: Symbol<'a>)
+        ensures final(self).log() == old(self).log().push(s);
 }
